@@ -495,7 +495,7 @@ where
     fn split_text<'b>(&'slf self, delimiter: &'b str) -> SplitTextIter<'store, 'b> {
         SplitTextIter {
             resource: self.resource(),
-            iter: self.store().text().split(delimiter),
+            iter: self.text().split(delimiter),
             byteoffset: self
                 .subslice_utf8_offset(self.text())
                 .expect("subslice must succeed for split_text"),
@@ -687,7 +687,7 @@ where
     fn split_text<'b>(&'slf self, delimiter: &'b str) -> SplitTextIter<'store, 'b> {
         SplitTextIter {
             resource: self.resource(),
-            iter: self.store().text().split(delimiter),
+            iter: self.text().split(delimiter),
             byteoffset: self
                 .subslice_utf8_offset(self.text())
                 .expect("subslice must succeed for split_text"),
@@ -815,7 +815,7 @@ impl<'t> Match<'t> {
                 let mut begin = None;
                 for group in m.iter() {
                     if let Some(group) = group {
-                        if begin.is_none() || begin.unwrap() < group.start() {
+                        if begin.is_none() || group.start() < begin.unwrap() {
                             begin = Some(group.start());
                         }
                     }
@@ -833,8 +833,8 @@ impl<'t> Match<'t> {
                 let mut end = None;
                 for group in m.iter() {
                     if let Some(group) = group {
-                        if end.is_none() || end.unwrap() < group.start() {
-                            end = Some(group.start());
+                        if end.is_none() || end.unwrap() < group.end() {
+                            end = Some(group.end());
                         }
                     }
                 }
@@ -1022,15 +1022,13 @@ impl<'store, 'regex> FindRegexIter<'store, 'regex> {
                 let textselection = self
                     .resource
                     .textselection(&Offset::simple(
-                        self.begincharpos
-                            + self
-                                .resource
-                                .utf8byte_to_charpos(self.beginbytepos + m.start())
+                        self
+                            .resource
+                            .utf8byte_to_charpos(self.beginbytepos + m.start())
                                 .expect("byte to pos conversion must succeed"),
-                        self.begincharpos
-                            + self
-                                .resource
-                                .utf8byte_to_charpos(self.beginbytepos + m.end())
+                        self
+                            .resource
+                            .utf8byte_to_charpos(self.beginbytepos + m.end())
                                 .expect("byte to pos conversion must succeed"),
                     ))
                     .expect("textselection from offset must succeed");
@@ -1053,15 +1051,13 @@ impl<'store, 'regex> FindRegexIter<'store, 'regex> {
                         textselections.push(
                             self.resource
                                 .textselection(&Offset::simple(
-                                    self.begincharpos
-                                        + self
-                                            .resource
-                                            .utf8byte_to_charpos(self.beginbytepos + group.start())
+                                    self
+                            .resource
+                            .utf8byte_to_charpos(self.beginbytepos + group.start())
                                             .expect("byte to pos conversion must succeed"),
-                                    self.begincharpos
-                                        + self
-                                            .resource
-                                            .utf8byte_to_charpos(self.beginbytepos + group.end())
+                                    self
+                            .resource
+                            .utf8byte_to_charpos(self.beginbytepos + group.end())
                                             .expect("byte to pos conversion must succeed"),
                                 ))
                                 .expect("textselection from offset must succeed"),
